@@ -21,6 +21,7 @@ RULEDOC = {
  'SA-COORD.refresh': 'the loop that renumbers the children of a directory assigns all cached coordinates on every iteration, to the end, without early exit',
  'SA-COORD': 'a position is computed from the cached coordinates (extents_to_here, offset_to_here, index_in_parent, parent, dr_len) of exactly one record',
  'SA-DATE': 'broken-down time fields and the GMT offset come from the same localtime() of the same instant',
+ 'SA-DATE.instant': 'the recorded GMT offset is computed from gmtime(instant) vs the local broken-down time of the same instant; nothing reads the process-wide time.timezone/altzone',
  'SA-DEDUP': 'duplicate-content linking in genisoimage is dominated by a byte-wise comparison',
  'SA-DISPATCH.shadow': 'no alternative of a constant if/elif dispatch is shadowed by an earlier unconditional branch',
  'SA-DUPGUARD': 'each insertion primitive refuses duplicates before it inserts',
